@@ -60,6 +60,9 @@ def write_gen(relname, content):
     exactly when the source changed)."""
     path = os.path.join(THEORIES, 'Gen', relname)
     os.makedirs(os.path.dirname(path), exist_ok=True)
+    # the file must depend on the source text only, not on where the tree under test lives (scratch worktrees)
+    from harness.common import repo as _repo
+    content = content.replace(_repo.REPO.rstrip('/') + '/', '<repo>/').replace(_repo.REPO, '<repo>')
     return _write_if_changed(path, content)
 
 
